@@ -28,12 +28,16 @@ RULE = ("ColumnBatch streams built with the real BatchPool (schemas over every l
         "mentions or the engine assigns to a column - read from the Rust text on every run - plus unknown, prefix and near-miss names, each "
         "emitted as a whole batch and partially; cells of every ScalarValue variant in every column type: nulls, i64/u64 limits, 2^53 neighbours, "
         "integral / subnormal / non-finite floats, numeric-looking, boolean-looking, whitespace-padded, non-ASCII and JSON-document "
-        "strings, binary) x batch splits incl. empty batches x event_id columns with duplicate / negative / textual / null ids x "
+        "strings, binary; string cells, column names, document members and error messages over the edges of the string encodings: "
+        "supplementary-plane code points (emoji, ZWJ / flag sequences, U+10000, U+10FFFF, planes 2, 14-16), BMP edges (U+D7FF, U+E000, "
+        "U+FFFD-U+FFFF, BOM), combining marks next to their precomposed forms, the characters JSON must escape (quote, backslash, "
+        "C0 controls incl. NUL, DEL), U+2028/2029/0085, and literal text that looks like an escape) x batch splits incl. empty batches x event_id columns with duplicate / negative / textual / null ids x "
         "LIMIT / OFFSET in {absent, 0, 1, small, beyond the end} x streaming_batch_size in {0, 1, 3, 1000} (one harness process group per "
         "value) x QueryResponseWriter and ShowResponseWriter (materialized-frame counts, watermark filtering) x JsonRenderer, UnixRenderer, "
         "ArrowRenderer; the encoders called directly with explicit row indices; error responses (7 status codes x messages around the "
-        "sniffing limits) through the three renderers and the HTTP status derivation.  JSON / text streams are decoded by CPython's json, "
-        "Arrow streams by arrow_ipc::reader::StreamReader.  A case is non-trivial when it emitted at least one row (or is an error case); "
+        "sniffing limits) through the three renderers and the HTTP status derivation.  JSON / text streams are decoded by CPython's json "
+        "(every frame parsed; names and string cells compared as the UTF-8 bytes of the DECODED string, so any escape spelling that decodes "
+        "to the same string is accepted and any other is a violation naming the cell), Arrow streams by arrow_ipc::reader::StreamReader.  A case is non-trivial when it emitted at least one row (or is an error case); "
         "distinct by (kind, decoded streams)")
 ASSUMPTIONS = [
     "serde_json's reading of a Utf8 cell as array/object, Rust's str::parse::<f64> and f64::to_string are inputs of the model, not modelled (computed by the generator with CPython and cross-checked by the differential run)",
@@ -46,7 +50,7 @@ TRUSTED = [
     "translator tools/params/p50_render.py (both logical_to_arrow_type tables, the accepted ScalarValue variants of every Arrow builder of both paths, the to_json threshold, status codes and HTTP sniffing constants are read from the Rust text)",
     "extraction: ExtrOcamlBasic only; ocaml/driver.ml, conv.ml, p_render.ml (parsing/printing)",
     "correspondence harness /verif/harness (vharn fn render_run/render_enc/render_err) built against /repo with --cfg sneldb_verif; hooks QueryBatchStream::verif_from_receiver, ShowResponseWriter re-export, verif_http_status_of_output",
-    "readers: CPython json (JSON and text streams), arrow-ipc 54 StreamReader (Arrow streams); python oracle = pairwise comparison of the decodings",
+    "readers: CPython json (JSON and text streams), arrow-ipc 54 StreamReader (Arrow streams); python oracle = pairwise comparison of the decodings (text vs JSON and JSON vs Arrow, cell by cell); tools/c20_oracle_selftest.py re-spells the real text streams with correct and wrong escapes and checks the verdicts",
 ]
 
 CLAIMED = True
@@ -323,6 +327,61 @@ STR_EDGES = ["", "hi", "héllo", "日本", "a\nb", "q\"uote\\", "\x01\x1f", "\x7
              "[1e2]", "[NaN]", "{\"a\":1,\"a\":2}", "[-0]", "[18446744073709551616]", "\n[1]\n", "\x0b[1]", "[1]x", "[[[]]]", "[\"a\\nb\"]"]
 
 
+# ------------------------------------------------------------------ strings whose encodings differ between the three renderers
+# JSON / text frames carry a string inside a JSON string literal (the serializer may write any character raw or as an
+# escape: \uXXXX, a UTF-16 surrogate pair beyond the BMP, the short escapes), Arrow carries its UTF-8 bytes.  The property
+# is about the DECODED string, so these families aim at every place where an escaping serializer can go wrong: code points
+# >= U+10000 (need a surrogate pair), the BMP edges around the surrogate block and the non-characters, combining marks
+# (no normalisation may happen), the characters JSON must escape, the line separators, and literal text that looks like
+# an escape.  Used as cell values, as column names (schema frame, keys of row frames, Arrow field names) and inside
+# JSON-document strings.
+UNI_CPS = [0x1F600, 0x10000, 0x10FFFF, 0x1F468, 0x200D, 0x1F469, 0x20000, 0x2FA1D, 0xE0001, 0xF0000, 0x100000, 0x1F1EF, 0x1F1F5,
+           0xFFFF, 0xFFFE, 0xFFFD, 0xFDD0, 0xD7FF, 0xE000, 0xF8FF, 0xFEFF, 0xFE0F, 0x0301, 0x0300, 0x20DD, 0x0308,
+           0x2028, 0x2029, 0x85, 0xA0, 0x80, 0xFF, 0x7FF, 0x800, 0x22, 0x5C, 0x2F, 0x00, 0x01, 0x08, 0x0C, 0x0A, 0x0D, 0x09, 0x1F, 0x7F,
+           0x61, 0x30, 0x75, 0x20, 0x65, 0xE9, 0x65E5]
+UNI_EDGES = ["smile \U0001F600!", "\U0001F600", "\U00010000", "\U0010FFFF", "x\U0010FFFFy", "\U0001F600\U0001F600a", "a\U00010000\uFFFF\U0010FFFF0",
+             "\U0001F468\u200D\U0001F469\u200D\U0001F467", "\U0001F1EF\U0001F1F5", "\U00020000\u5B57", "\U000E0001", "\U000F0000\U00100000",
+             "\U0001F600\u0301", "\U0001F44D\U0001F3FD", "\u2764\uFE0F",
+             "\uFFFF", "\uFFFE", "\uFFFD", "\uFDD0", "\uD7FF", "\uE000", "\uD7FF\uE000", "\uFEFFbom", "\u07FF\u0800", "\x7f\x80\xff",
+             "e\u0301", "\xe9", "a\u0300\u0301", "\u0301", "\u1100\u1161\u11A8", "\uAC01", "\u212B\xC5",
+             "\u2028", "\u2029", "a\u2028b\u2029c", "\x85\xa0",
+             "\x00", "a\x00b", "\x08\x0c\n\r\t", "\x1f\x7f", "\"", "\\", "\\\\\"", "/", "</script>", "\"\\/\x08\x0c\n\r\t\u2028\U0001F600",
+             "\\ud83d\\ude00", "\\u1f600", "\\uD83D", "\\u{1f600}", "\\U0001F600", "&#128512;", "%F0%9F%98%80", "\\x00",
+             "[\"\U0001F600\"]", "[\"\\ud83d\\ude00\"]", "[\"\\ud83d\"]", "[\"\\u1f600\"]", "{\"\U00010000\":\"\U0010FFFF\"}", "[\"e\u0301\",\"\xe9\"]",
+             "[\"\u2028\"]", "{\"k\\u0000\":\"\\u0000\"}"]
+UNI_NAMES = ["col_\U0001F600", "\U00010000", "n\U0010FFFF", "\U0001F468\u200D\U0001F469", "\U00020000\u5B57", "e\u0301", "\xe9", "\uFFFF", "\uFFFD", "\uE000x",
+             "\uD7FF", "\u0301", "q\"uote", "back\\slash", "tab\there", "line\nbreak", "\u2028", "\u2029sep", "\x01ctl", "nul\x00", "a/b",
+             "\\ud83d\\ude00", "\\u1f600", "\uFEFFname", " ", "\x7f", "k,:;=|{}"]
+
+
+def gen_cp(rng):
+    r = rng.below(10)
+    if r < 5:
+        return rng.choice(UNI_CPS)
+    if r < 7:
+        return rng.range(0x10000, 0x10FFFF)
+    if r < 8:
+        c = rng.range(0x80, 0xFFFF)
+        return c if not 0xD800 <= c <= 0xDFFF else 0xFFFD
+    if r < 9:
+        return rng.choice([0x10000, 0x10001, 0x1FFFF, 0x20000, 0xFFFFF, 0x100000, 0x10FFFE, 0x10FFFF, 0x103FF, 0x10400, 0x1F600, 0x1D11E])
+    return rng.range(0, 0x7F)
+
+
+def gen_uni_str(rng):
+    if rng.chance(1, 4):
+        return rng.choice(UNI_EDGES)
+    return "".join(chr(gen_cp(rng)) for _ in range(rng.range(1, 6)))
+
+
+def show_text(s):
+    """unambiguous spelling of a decoded string: ASCII with \\x / \\u / \\U escapes, plus the code points when any is not
+    printable ASCII (so that U+2000 followed by '0' cannot be misread as U+20000)"""
+    if all(0x20 <= ord(c) < 0x7F for c in s):
+        return ascii(s)
+    return ascii(s) + " <" + " ".join("U+%04X" % ord(c) for c in s[:24]) + (" ..." if len(s) > 24 else "") + ">"
+
+
 def gen_float_bits(rng):
     r = rng.below(10)
     if r < 4:
@@ -352,7 +411,7 @@ def gen_doc_text(rng, depth=0):
         if r == 0:
             return rng.range(-50, 50)
         if r == 1:
-            return rng.choice(["a", "", "x y", "é", "q\"", "1"])
+            return rng.choice(["a", "", "x y", "é", "q\"", "1", "\U0001F600", "e\u0301", "\u2028", "\U0010FFFF\uFFFF"])
         if r == 2:
             return rng.choice([True, False, None])
         if r == 3:
@@ -363,7 +422,7 @@ def gen_doc_text(rng, depth=0):
             return rng.range(0, 9)
         if r == 6:
             return [val(d + 1) for _ in range(rng.below(3))]
-        return {rng.choice(["a", "b", "k", "", "zé"]): val(d + 1) for _ in range(rng.below(3))}
+        return {rng.choice(["a", "b", "k", "", "zé", "\U00010000"]): val(d + 1) for _ in range(rng.below(3))}
     v = [val(1) for _ in range(rng.below(3))] if rng.chance(1, 2) else {rng.choice(["a", "b", "c"]): val(1) for _ in range(rng.below(3))}
     sep = rng.choice([(",", ":"), (", ", ": "), (" ,", " : "), (",\n", ":\t")])
     t = json.dumps(v, separators=sep, ensure_ascii=rng.chance(1, 3))
@@ -375,7 +434,9 @@ def gen_doc_text(rng, depth=0):
 
 
 def gen_str(rng):
-    r = rng.below(12)
+    r = rng.below(14)
+    if r >= 12:
+        return gen_uni_str(rng)
     if r < 6:
         return rng.choice(STR_EDGES)
     if r < 8:
@@ -425,7 +486,7 @@ def gen_schema(rng, with_id):
     cols = []
     used = set()
     for _ in range(n):
-        nm = rng.choice(names)
+        nm = rng.choice(names) if rng.chance(5, 6) else rng.choice(UNI_NAMES)
         while nm in used:
             nm = nm + "_"
         used.add(nm)
@@ -487,6 +548,8 @@ def gen_run(rng, tier_big):
 def gen_enc(rng, typed):
     ncol = rng.range(1, 3)
     cols = [(f"c{i}", rng.choice(CORE_NAMES) if rng.chance(4, 5) else rng.choice(TYPE_NAMES)) for i in range(ncol)]
+    if rng.chance(1, 4):
+        cols = [(rng.choice(UNI_NAMES) + (str(i) if i else ""), t) for i, (_, t) in enumerate(cols)]
     nr = rng.range(1, 5)
     rows = []
     for _ in range(nr):
@@ -500,7 +563,8 @@ def gen_enc(rng, typed):
 
 
 MSG_WORDS = ["Event type not found", "status", "Invalid status value", "x", "", "ok", "abcdef", "abcdefg", "No such schema: orders",
-             "q\"uote", "line\nbreak", "tab\there", "ééé", "back\\slash", "\x01ctl", "{\"status\":200}", "200 OK", "a status"]
+             "q\"uote", "line\nbreak", "tab\there", "ééé", "back\\slash", "\x01ctl", "{\"status\":200}", "200 OK", "a status",
+             "no such type \U0001F600", "\U00010000\U0010FFFF", "e\u0301 \u2028 \uFFFF"]
 
 
 def gen_err(rng):
@@ -515,6 +579,62 @@ def gen_err(rng):
     else:
         msg = "".join(rng.choice("ab \"\\\nés") for _ in range(rng.range(0, 60)))
     return {"kind": "err", "line": f"render_err {st} {hx(msg)}", "show": f"status#{st} message {msg[:60]!r} ({len(msg.encode())} bytes)"}
+
+
+def uni_cases(rng, quick):
+    """strings and column names at the edges of the encodings (see UNI_EDGES), through the encoders called directly
+    (schema frame, batch frame, row frames whose keys are the column names, Arrow field names and LargeUtf8 cells) and
+    through both response writers (batch frames and, with streaming_batch_size 0, whatever the writer emits then)"""
+    out = []
+
+    def show(cols, cells):
+        return "column names " + ", ".join(show_text(n) for n, _ in cols) + "; string cells " + ", ".join(show_text(x) for x in cells)
+    for sv in UNI_EDGES:
+        for ty in ("String", "JSON", rng.choice(["Integer", "Float", "Boolean", "Timestamp"])):
+            cols = [("c", ty)]
+            out.append({"kind": "uni_cell", "line": f"render_enc {rng.choice(['W', '0'])} {cols_tok(cols)} {tok_str(sv)}", "show": show(cols, [sv])})
+        cols = [("v", "String")]
+        out.append({"kind": "uni_cell_run", "show": show(cols, [sv]),
+                    "line": f"render_run {rng.choice(['q', 's0n', 's1w'])} {rng.choice(['0', '1', '3', '1000'])} - - {cols_tok(cols)} {tok_str(sv)};{tok_str('plain')}"})
+    for nm in UNI_NAMES:
+        other = rng.choice([x for x in UNI_NAMES if x != nm])
+        cols = [(nm, "String"), (other, rng.choice(["Integer", "String"]))]
+        cells = [gen_uni_str(rng) for _ in range(2)]
+        rows = ";".join(f"{tok_str(c)},{gen_cell(rng, matching_kind(rng, cols[1][1]))}" for c in cells)
+        out.append({"kind": "uni_name", "line": f"render_enc {rng.choice(['W', '0,1', '1'])} {cols_tok(cols)} {rows}", "show": show(cols, cells)})
+        for kind in ("q", rng.choice(["s0n", "s2n", "s0w"])):
+            out.append({"kind": "uni_name_run", "show": show(cols, cells),
+                        "line": f"render_run {kind} {rng.choice(['0', '1', '3', '1000'])} {rng.choice(['-', '-', '1', '5'])} {rng.choice(['-', '-', '1'])} {cols_tok(cols)} {rows}"})
+    for _ in range(150 if quick else 6000):
+        n = rng.range(1, 3)
+        names = []
+        while len(names) < n:
+            nm = rng.choice(UNI_NAMES) if rng.chance(1, 2) else "".join(chr(gen_cp(rng)) for _ in range(rng.range(1, 4)))
+            if nm not in names and nm != "event_id":
+                names.append(nm)
+        cols = [(nm, rng.choice(["String", "String", "JSON", "Object", "Array"] + CORE_NAMES[:3])) for nm in names]
+        cells, rows = [], []
+        for _ in range(rng.range(1, 4)):
+            row = []
+            for _nm, ty in cols:
+                if atype(ty) == "LargeUtf8" or rng.chance(1, 5):
+                    sv = gen_uni_str(rng)
+                    cells.append(sv)
+                    row.append(tok_str(sv))
+                else:
+                    row.append(gen_cell(rng, matching_kind(rng, ty)))
+            rows.append(",".join(row))
+        if rng.chance(1, 2):
+            nr = len(rows)
+            sel = "W" if rng.chance(1, 2) else ",".join(str(i) for i in range(nr) if rng.chance(2, 3)) or "0"
+            line = f"render_enc {sel} {cols_tok(cols)} {';'.join(rows)}"
+        else:
+            k = rng.below(len(rows) + 1)
+            body = ";".join(rows[:k]) + "/" + ";".join(rows[k:]) if 0 < k < len(rows) else ";".join(rows)
+            line = (f"render_run {rng.choice(['q', 'q', 's0n', 's1n', 's0w'])} {rng.choice(['0', '1', '3', '1000'])} "
+                    f"{rng.choice(['-', '-', '1', '2'])} {rng.choice(['-', '-', '1'])} {cols_tok(cols)} {body}")
+        out.append({"kind": "uni_random", "line": line, "show": show(cols, cells)})
+    return out
 
 
 def cases(rng, tier):
@@ -544,6 +664,7 @@ def cases(rng, tier):
     for s in STR_EDGES:
         for ty in ("String", "Integer", "Float", "Boolean", "Timestamp", "JSON"):
             out.append({"kind": "cell_str", "line": f"render_enc {rng.choice(['W', '0'])} {cols_tok([('c', ty)])} {tok_str(s)}"})
+    out += uni_cases(rng, quick)
     for b in [fbits(x) for x in FLOAT_EDGES] + FLOAT_NONFINITE:
         for ty in ("Float", "String", "Integer"):
             out.append({"kind": "cell_float", "line": f"render_enc {rng.choice(['W', '0'])} {cols_tok([('c', ty)])} {tok_float(b)}"})
@@ -590,7 +711,16 @@ def cell_of_json(v):
 
 
 def decode_json_stream(h):
-    """hex of a JSON / text stream -> canonical frames"""
+    """hex of a JSON / text stream -> canonical frames.
+
+    Both the JSON renderer and the line-oriented text renderer stream one JSON document per line.  Each frame is PARSED
+    (CPython json) and only the decoded content is kept: column names and string cells as the hex of the UTF-8 bytes of
+    the decoded string, numbers by value.  A renderer is therefore free to write a character raw or as any escape that
+    decodes to it (\\u00e9, a surrogate pair, \\/), and an escape that decodes to something else (a 5-digit \\u, half
+    a surrogate pair, a dropped or normalised character) shows as a different cell / name.  The model
+    (Model/Render.v) works on decoded content as well: its frames carry the cell's bytes, not a JSON spelling, so
+    the correspondence compares after decoding on both sides.  A frame that is not UTF-8, not JSON, or decodes to a
+    string with an unpaired surrogate (no UTF-8 form, cannot equal any Arrow cell) is a BAD frame."""
     if h.startswith("ERR"):
         return h
     raw = vlib.unhx(h)
@@ -600,21 +730,21 @@ def decode_json_stream(h):
             continue
         try:
             tag, obj = json.loads(ln.decode("utf-8"), object_pairs_hook=_pairs)
-        except Exception:
-            frames.append("BAD:" + ln[:40].hex())
-            continue
-        d = dict(obj)
-        ty = d.get("type")
-        if ty == "schema":
-            frames.append("S" + ",".join(f"{hx(dict(c[1])['name'])}:{hx(dict(c[1])['logical_type'])}" for c in d["columns"]))
-        elif ty == "batch":
-            frames.append("B" + ";".join(",".join(cell_of_json(c) for c in r) for r in d["rows"]))
-        elif ty == "row":
-            frames.append("R" + ",".join(f"{hx(k)}={cell_of_json(v)}" for k, v in d["values"][1]))
-        elif ty == "end":
-            frames.append(f"E{d['row_count']}")
-        else:
-            frames.append("BAD:" + ln[:40].hex())
+            d = dict(obj)
+            ty = d.get("type")
+            if ty == "schema":
+                fr = "S" + ",".join(f"{hx(dict(c[1])['name'])}:{hx(dict(c[1])['logical_type'])}" for c in d["columns"])
+            elif ty == "batch":
+                fr = "B" + ";".join(",".join(cell_of_json(c) for c in r) for r in d["rows"])
+            elif ty == "row":
+                fr = "R" + ",".join(f"{hx(k)}={cell_of_json(v)}" for k, v in d["values"][1])
+            elif ty == "end":
+                fr = f"E{int(d['row_count'])}"
+            else:
+                fr = "BAD:" + ln[:40].hex()
+        except Exception:       # not UTF-8 / not JSON / not the frame shape / unpaired surrogate (hx cannot encode it)
+            fr = "BAD:" + ln[:40].hex()
+        frames.append(fr)
     return "|".join(frames)
 
 
@@ -772,30 +902,38 @@ def failing(c, impl):
                              f"{'the JSON stream carries ' + str(n) + ' row(s)' if 'JSON' not in which else 'another encoding succeeded'}: {impl[:160]}")]
     J, T, A = json_rows(js), json_rows(ts), arrow_rows(ars)
     if J is None or T is None or A is None:
-        return [(None, None, f"undecodable frame in {impl[:200]}")]
+        bad = [nm for nm, v in (("JSON", J), ("text", T), ("Arrow", A)) if v is None]
+        return [(None, None, f"undecodable frame in the {'/'.join(bad)} stream (not UTF-8, not JSON, or a string with an unpaired surrogate): {impl[:200]}")]
     out = []
-    if js != ts:
-        out.append((None, None, "the JSON stream and the text stream decode differently"))
     jn, jb, jr, jend = J
+    tn, tb, tr, tend = T
     an, ar = A
-    if jn != an:
-        out.append((None, None, f"column names differ: json {jn} arrow {an}"))
     enc = line.startswith("render_enc")
-    jrows_r = [[kv[1] for kv in r] for r in jr]
-    for r in jr:
-        if [kv[0] for kv in r] != jn:
-            out.append((None, None, f"row frame keys {[kv[0] for kv in r]} differ from the schema {jn}"))
-    if enc:
-        views = [("json batch frame", jb), ("json row frames", jrows_r)]
-        if jend != len(jb):
-            out.append((None, None, f"announced row count {jend} but {len(jb)} rows"))
-    else:
-        if jb and jrows_r:
-            out.append((None, None, "both batch and row frames in one stream"))
-        views = [("json", jb + jrows_r)]
-        if jend != len(jb) + len(jrows_r):
-            out.append((None, None, f"announced row count {jend} but {len(jb) + len(jrows_r)} rows were emitted"))
-    for nm, rows in views:
+
+    def names_txt(ns):
+        return "[" + ", ".join(show_name(n) for n in ns) + "]" if ns is not None else "no schema frame"
+    if jn != an:
+        out.append((None, None, f"column names differ: json {names_txt(jn)} arrow {names_txt(an)}"))
+    if tn != jn:
+        out.append((None, None, f"column names differ: text {names_txt(tn)} json {names_txt(jn)} arrow {names_txt(an)}"))
+
+    def views_of(label, names, b, r, end):
+        rr = [[kv[1] for kv in x] for x in r]
+        for x in r:
+            if [kv[0] for kv in x] != names:
+                out.append((None, None, f"{label} row frame keys {names_txt([kv[0] for kv in x])} differ from the schema {names_txt(names)}"))
+        if enc:
+            if end != len(b):
+                out.append((None, None, f"{label}: announced row count {end} but {len(b)} rows"))
+            return [(label + " batch frame", b), (label + " row frames", rr)]
+        if b and rr:
+            out.append((None, None, f"{label}: both batch and row frames in one stream"))
+        if end != len(b) + len(rr):
+            out.append((None, None, f"{label}: announced row count {end} but {len(b) + len(rr)} rows were emitted"))
+        return [(label, b + rr)]
+    jviews = views_of("json", jn, jb, jr, jend)
+    tviews = views_of("text", tn, tb, tr, tend)
+    for nm, rows in jviews:
         if len(rows) != len(ar):
             out.append((None, None, f"{nm} carries {len(rows)} rows, arrow {len(ar)}"))
             continue
@@ -806,13 +944,39 @@ def failing(c, impl):
             for ci, (p, q) in enumerate(zip(x, y)):
                 if not cells_agree(p, q):
                     out.append((ri, ci, f"row {ri} column {ci}: {nm} decodes {show_cell(p)}, arrow decodes {show_cell(q)}"))
+    # the text rendering against the JSON frames, cell by cell on the decoded values (and, to name the odd one out,
+    # against Arrow).  These entries carry no (row, column) key on purpose: the known classes are disagreements between
+    # JSON and Arrow; a text cell that differs from the JSON cell is never one of them.
+    for (tnm, trows), (jnm, jrows) in zip(tviews, jviews):
+        if len(trows) != len(jrows):
+            out.append((None, None, f"{tnm} carries {len(trows)} rows, {jnm} {len(jrows)}"))
+            continue
+        for ri, (x, y) in enumerate(zip(trows, jrows)):
+            if len(x) != len(y):
+                out.append((None, None, f"row {ri}: {len(x)} cells in {tnm}, {len(y)} in {jnm}"))
+                continue
+            for ci, (p, q) in enumerate(zip(x, y)):
+                if not cells_agree(p, q):
+                    a = ar[ri][ci] if len(ar) == len(jrows) and ci < len(ar[ri]) else None
+                    col = show_name(jn[ci]) if jn and ci < len(jn) else "?"
+                    out.append((None, None, f"row {ri} column {ci} ({col}): {tnm} decodes {show_cell(p)}, {jnm} decodes {show_cell(q)}"
+                                            + (f", arrow decodes {show_cell(a)}" if a is not None else "")))
+    if js != ts and not out:
+        out.append((None, None, "the JSON stream and the text stream decode differently (frame structure)"))
     return out
+
+
+def show_name(hexname):
+    try:
+        return show_text(vlib.unhx(hexname).decode("utf-8"))
+    except Exception:
+        return "hex:" + hexname
 
 
 def show_cell(t):
     k = t[0]
     if k == "s":
-        return "string " + repr(vlib.unhx(t[1:]).decode("utf-8", "replace"))
+        return "string " + show_text(vlib.unhx(t[1:]).decode("utf-8", "replace"))
     if k == "d":
         return "document " + vlib.unhx(t[1:]).decode("utf-8", "replace")
     if k == "f":
